@@ -125,6 +125,7 @@ class ResubSim(Sim):
         self.canceled_visible_step = None
         # faults of the base run are over; the resubmission itself is fault-free unless it asks for its own fault
         self.scen["faults"] = dict(rs.get("faults") or {})
+        self.sq_budget = self.scen["faults"].get("squeue_fail_budget", 10**9)
         self.ff = not self.scen["faults"]
         self.fault_budget = 0
         self.crash_done = False
@@ -165,9 +166,12 @@ class ResubSim(Sim):
         self.resub_tag = tag
         self.drive()
         rc = self.top_rc.get(tag)
-        if self.scen["faults"]:
+        outage_only = bool(self.scen["faults"]) and set(self.scen["faults"]) <= {"squeue_fail", "squeue_fail_budget", "max_recoveries", "outage_freeze"}
+        if self.scen["faults"] and not outage_only:
             self.after_failed_resubmit(tag, before, closure)
             return False
+        # a scheduler that does not answer for a while is not a fault of the command: the round it hits may fail, but the
+        # documented try-submit-jobs (driven above until idle) must then carry the resubmission through - judged like any other
         # ---- oracles
         ep = self.epoch
         lastc = self.obs[-1] if self.obs else None
